@@ -16,7 +16,7 @@ CONF = dict(
           'socket by a well-formed sentinel request that must be answered (IP: a plain NTP sentinel after every datagram and an NTS sentinel of a fresh association after '
           'every history; CSPTP: the listener\'s "received request" log record; NTS-KE: a complete key exchange, also while 1..16 connections that sent nothing, a partial or a whole ClientHello, or garbage are still open); (iii) the real clients (MeasureClockOffsetIP without and '
           'with NTS incl. a scripted TLS NTS-KE server handing out cookies of 0..65535 bytes, MeasureClockOffsetSCION with and without packet authentication, '
-          'CSPTPClientIP.MeasureClockOffset) against scripted peers that answer with crafted datagrams, followed by an honest exchange that must succeed. A case is '
+          'CSPTPClientIP.MeasureClockOffset) against scripted peers that answer with crafted datagrams, followed by an honest exchange that must succeed. Second round (paths a coverage audit found unreached): srv.scionnts = valid and hostile NTS requests (truncated, overlong, duplicated fields, real cookie with garbage ciphertext) inside well-formed SCION/UDP; srv.scionauth = the same and plain NTP under a VALID packet authenticator (SPAO MAC under the mock key), damaged MACs, other SPIs, one-hop/zero-segment paths and 8/12-byte addresses under a valid MAC; every SCION history ends with an NTS sentinel over SCION whose reply must verify and an SPAO-authenticated NTS sentinel whose reply must verify and carry the listener\'s authenticator; cli.scionnts = SCION client with NTS (scripted TLS NTS-KE server, cookies of 0..65535 bytes, non-IP Server records, replies with wrong id / damaged tag / nonce length 0 and 17 / cookies of 0..65531 bytes, with valid, damaged and misplaced SPAO MACs, packet authentication on and off, interleaved mode on and off); cli.overlap = 10-16 clients side by side, each making 24-60 back-to-back calls whose contexts end while the client\'s goroutine still has exchanges and key exchanges to do (consecutive rounds on one client overlap); cli.ipopt = IP client with interleaved mode, Ntimed filter, lucky-packet filter and histogram in 10 combinations, 1-4 calls of hostile replies (extreme and random timestamps, interleaved-style origin) each; srv.quicke = NTS-KE over QUIC: record streams truncated/malformed/reset, 1-4 connections with a stalled stream or no stream at all, 1-12 half-open handshakes (only the first datagram(s) reach the listener), each followed by a complete key exchange over QUIC while they are still open. All loggers format at debug level into io.Discard so that the log valuers run on hostile values. A case is '
           'non-trivial when its input passes the first length check of its decoder (all listener/client cases are); distinct = distinct (kind, input)'),
     assumptions=['byte strings are lists over 0..255 (list elements are read mod 256); a listener\'s own cookies have a length that is a multiple of four (124 bytes)',
                  'calls that leave the project are arbitrary functions in the theorems: AES-SIV open (with its documented precondition: 16-byte nonce, else panic), key '
@@ -40,5 +40,5 @@ CONF = dict(
     explanation=('oracle clauses: no decoder call ends in a panic or fails to return; the process that runs the listeners/clients stays alive; every well-formed sentinel sent '
                  'after crafted input on the same socket is answered; after crafted responses an honest exchange of the same client succeeds'),
     timeout_quick=1800, timeout_thorough=5400,
-    min_cases={'cli.csptp': 41, 'cli.ip': 12, 'cli.nts': 19, 'cli.scion': 66, 'cmsg': 743, 'cookie.decrypt': 58, 'cookie.enc': 114, 'cookie.srv': 100, 'csptp.msg': 30, 'csptp.req': 139, 'csptp.resp': 139, 'ntp.dec': 63, 'nts.auth': 326, 'nts.clireq': 45, 'nts.dec': 1035, 'nts.enc': 90, 'nts.resp': 17, 'nts.srvreply': 226, 'ntske.read': 162, 'scion.authopt': 19, 'srv.csptp': 206, 'srv.ip': 29, 'srv.kestall': 7, 'srv.ntske': 18, 'srv.quic': 5, 'srv.scion': 38},
+    min_cases={'cli.csptp': 40, 'cli.ip': 12, 'cli.ipopt': 12, 'cli.nts': 21, 'cli.overlap': 1, 'cli.scion': 66, 'cli.scionnts': 19, 'cmsg': 743, 'cookie.decrypt': 58, 'cookie.enc': 114, 'cookie.srv': 100, 'csptp.msg': 30, 'csptp.req': 139, 'csptp.resp': 139, 'ntp.dec': 63, 'nts.auth': 352, 'nts.clireq': 45, 'nts.dec': 1113, 'nts.enc': 90, 'nts.resp': 17, 'nts.srvreply': 236, 'ntske.read': 162, 'scion.authopt': 19, 'srv.csptp': 213, 'srv.ip': 29, 'srv.kestall': 7, 'srv.ntske': 18, 'srv.quic': 5, 'srv.quicke': 11, 'srv.scion': 38, 'srv.scionauth': 8, 'srv.scionnts': 15},
 )
